@@ -17,12 +17,12 @@ LEVEL_TEXT = ("Lean theorems: (1) FORWARD SIMULATION definitional semantics => m
               "(C01_control_flow_program from SOURCE trees including the resolver, C01_function_program from resolved trees); with functions the machine may instead stop at its 65535-slot/frame limit, which the semantics does not have. "
               "(5) HEAP VALUES at top level: floats (boxed on the machine), strings and arrays shared by reference (injective address map growing with each allocation, cell-wise heap relation), string constants copied on evaluation, indexing and index assignment with aliasing, all operators on all value kinds, all seven builtins incl. print (deep views with cycles agree), errors matched after the same printed output; C01_heap_source_program: for a parsed program passing the decidable, proved-sound fragment check the halting value's deep view and the printed output are the definitional ones. "
               "(6) R1 OF THE RESOLVER, NO PER-PROGRAM VALIDATION: C01_function_free_source_program / C01_function_free_eval_text: for EVERY source tree without function literals, user calls and antwoord (a syntactic, decidable condition SimH.SHB on the parsed tree: all literals, operators, assignments to names and indexed elements, lists, indexing, all builtins, als/zolang/blocks/stel, stop/volgende with no operand pending) eval answers what the definitional semantics answers, resolver and code generator included, by induction over the resolver (SimH.resolve_hb); C01_function_program_no_validation: the same for the syntactic fragment with top-level function definitions, calls, recursion, locals in nested block scopes and antwoord (SimF.SrcTop, SimF.resolve_ytop: contexts, slot numbering with reuse, max_size as locals count, distinct function ids). "
-              "(7) STAGE 6, HEAP VALUES TOGETHER WITH CALLS, COLLECTIONS INSIDE THE SIMULATION (Sim6*.lean, 5 400 lines): the union of stages 4 and 5 - functions, calls, recursion, locals, antwoord, control flow AND floats, strings, lists, indexing, index assignment, all operators and builtins inside bodies and at top level, arrays holding functions, heap values as arguments/results/globals; the address map between the semantics' store (never frees) and the machine heap shrinks at each collection to what survived (GC lemma Sim6.hinv_gc / C01_collection_is_transparent), what a caller holds is a root and stays related (Keep); C01_heap_and_calls_simulation (all seven statements for every fuel), C01_heap_and_calls_program (by validation), C01_heap_and_calls_eval_text (NO validation: syntactic fragment Sim6.S6Top = everything but nested function literals and stop/volgende under pending operands; evalText = specText or the machine's stack/frame limit). C01_parsed_float_literals_are_plain: the side condition on float literals holds for every parsed program (C01_heap_and_calls_eval_text_syntactic: hypothesis on the SHAPE of the parsed tree only). (8) STAGE 7, NESTED FUNCTION LITERALS (Sim7*.lean, 5 200 lines): literals in every expression position and named declarations in any block; function table of all literals, entry points and function ids pairwise distinct as theorems; bodies checked against the persistent global scope (a literal in a top-level block using a block-scoped global is outside: U1, the property is false there); C01_nested_functions_simulation/_program/_eval_text (validation) and _eval_text_no_validation (syntactic class Sim7.S7Top). "
+              "(7) STAGE 6, HEAP VALUES TOGETHER WITH CALLS, COLLECTIONS INSIDE THE SIMULATION (Sim6*.lean, 5 400 lines): the union of stages 4 and 5 - functions, calls, recursion, locals, antwoord, control flow AND floats, strings, lists, indexing, index assignment, all operators and builtins inside bodies and at top level, arrays holding functions, heap values as arguments/results/globals; the address map between the semantics' store (never frees) and the machine heap shrinks at each collection to what survived (GC lemma Sim6.hinv_gc / C01_collection_is_transparent), what a caller holds is a root and stays related (Keep); C01_heap_and_calls_simulation (all seven statements for every fuel), C01_heap_and_calls_program (by validation), C01_heap_and_calls_eval_text (NO validation: syntactic fragment Sim6.S6Top = everything but nested function literals and stop/volgende under pending operands; evalText = specText or the machine's stack/frame limit). C01_parsed_float_literals_are_plain: the side condition on float literals holds for every parsed program (C01_heap_and_calls_eval_text_syntactic: hypothesis on the SHAPE of the parsed tree only). (8) STAGE 7, NESTED FUNCTION LITERALS (Sim7*.lean, 5 200 lines): literals in every expression position and named declarations in any block; function table of all literals, entry points and function ids pairwise distinct as theorems; bodies checked against the persistent global scope (a literal in a top-level block using a block-scoped global is outside: U1, the property is false there); C01_nested_functions_simulation/_program/_eval_text (validation) and _eval_text_no_validation (syntactic class Sim7.S7Top). (9) STAGE 8, NAMED function literals in every expression position (Sim8*.lean, 3 200 lines; expression judgments with scope outputs; C01_named_literals_simulation, C01_named_literals_eval_text by validation). "
               "(2) the semantics is well defined: more fuel never changes a finished evaluation (whole language); more budget never changes a finished run. "
-              "Outside the proved fragments (named function literals in non-statement positions; literals in top-level blocks using block-scoped globals - U1; stop/volgende under pending operands, where the property is false - finding K3; the machine's 65535-slot/frame limit) the property is decided by the correspondence: "
+              "Outside the proved fragments (a named literal referring to itself from inside a larger expression; literals in top-level blocks using block-scoped globals - U1; stop/volgende under pending operands, where the property is false - finding K3; the machine's 65535-slot/frame limit) the property is decided by the correspondence: "
               "the real eval (value, printed output, error kind) against the definitional evaluator Spec.evalProgram on bounded-exhaustive, boundary and type-directed random programs, and against the machine model (steps, stack at Halt, collections).")
 LEVEL_NOTE = ("Trusted: Lean kernel (axioms propext, Classical.choice, Quot.sound); the hand-written model is tied to the code by the correspondence only; harness/driver I/O; Rust std. "
-              "Partial: the simulation theorem covers the whole language except named function literals in non-statement positions, U1 and K3 shapes (where the property is false); divergence preservation (a program that runs forever in the semantics runs forever on the machine) is not proved; the resolver part (R1) is proved for the control-flow fragment, the whole function-free language (stage 5), the syntactic function fragment (stage 4) the stage-6 fragment and the stage-7 class (nested literals at top level outside blocks and anywhere inside bodies); outside those syntactic fragments the end-to-end theorems go through the proved-sound per-program validation (inFragment / inFragmentH).")
+              "Partial: the simulation theorem covers the whole language except self-referring named literals inside larger expressions, U1 and K3 shapes (where the property is false); divergence preservation (a program that runs forever in the semantics runs forever on the machine) is not proved; the resolver part (R1) is proved for the control-flow fragment, the whole function-free language (stage 5), the syntactic function fragment (stage 4) the stage-6 fragment and the stage-7 class (nested literals at top level outside blocks and anywhere inside bodies); outside those syntactic fragments the end-to-end theorems go through the proved-sound per-program validation (inFragment / inFragmentH).")
 TECHNIQUE = 'Lean 4 proof (forward simulation definitional semantics => bytecode machine by induction on fuel; fuel/budget monotonicity) + differential correspondence eval vs Spec.eval vs machine model'
 RULE = ("programs: (a) bounded-exhaustive over the template grammar of checklib/enum.py, (b) type-directed "
         "random programs (checklib/gen.py) of 5-60 nodes, (c) the repository's examples/*.nl; a case is "
